@@ -14,6 +14,10 @@ import MM.Model.C10
     madv <from> <origin> <seq> <path> <ip> <ones> <bits> <metric>        Manager.ProcessRouteAdvertise (one entry)
     mwd <origin> <ip> <ones> <bits>                                      Manager.ProcessRouteWithdraw
     mdisc <peer>   mclean <maxAge>   mage <n>   mlook <ip>
+    mdyn <ip> <ones> <bits> <metric>   mrmdyn <ip> <ones> <bits>           Manager.AddDynamicRoute / RemoveDynamicRoute (ok|err)
+    mdlocal <pattern> <metric>   mdrmlocal <pattern>                     Manager.AddLocalDomainRoute / RemoveLocalDomainRoute
+    mflocal <key> <target> <metric>   mfrmlocal <key>                    Manager.AddLocalForwardRoute / RemoveLocalForwardRoute
+    mdlook <name>   mflook <key>   malook <agent>                        Manager.LookupDomain / LookupForward / LookupAgent
     mdadv <from> <origin> <seq> <path> <pattern> <metric>                Manager.ProcessDomainRouteAdvertise
     mfadv <from> <origin> <seq> <path> <key> <target> <metric>           Manager.ProcessForwardRouteAdvertise
     maadv <from> <origin> <seq> <path> <agent> <metric>                  Manager.ProcessAgentRouteAdvertise
@@ -72,6 +76,42 @@ def step (st : St) (line : String) : St × String :=
       let (m', ok) := st.m.withdraw (natTok orig) n
       ({ st with m := m' }, s!"{ok} ; {mdump m'}")
     | none => (st, "bad-op")
+  | ["mdyn", ip, ones, bits, metric] =>
+    match parseNet ip ones bits with
+    | some n =>
+      let (m', ok) := st.m.addDynamic st.self n (natTok metric)
+      ({ st with m := m' }, s!"{if ok then "ok" else "err"} ; {mdump m'}")
+    | none => (st, "bad-op")
+  | ["mrmdyn", ip, ones, bits] =>
+    match parseNet ip ones bits with
+    | some n =>
+      let (m', ok) := st.m.removeDynamic st.self n
+      ({ st with m := m' }, s!"{if ok then "ok" else "err"} ; {mdump m'}")
+    | none => (st, "bad-op")
+  | ["mdlocal", pat, metric] =>
+    match bytesOfHex pat with
+    | some p =>
+      let (m', d', ok) := st.m.addLocalDomain st.o.str st.self st.o.d p (natTok metric)
+      ({ st with m := m', o := { st.o with d := d' } }, s!"{ok} ; {ddump d'}")
+    | none => (st, "bad-op")
+  | ["mdrmlocal", pat] =>
+    match bytesOfHex pat with
+    | some p =>
+      let (m', d', ok) := st.m.removeLocalDomain st.o.str st.self st.o.d p
+      ({ st with m := m', o := { st.o with d := d' } }, s!"{ok} ; {ddump d'}")
+    | none => (st, "bad-op")
+  | ["mflocal", key, target, metric] =>
+    match bytesOfHex key, bytesOfHex target with
+    | some k, some tg =>
+      let (m', f', ok) := st.m.addLocalForward st.self st.o.f k tg (natTok metric)
+      ({ st with m := m', o := { st.o with f := f' } }, s!"{ok} ; {fdump f'}")
+    | _, _ => (st, "bad-op")
+  | ["mfrmlocal", key] =>
+    match bytesOfHex key with
+    | some k =>
+      let (m', f', ok) := st.m.removeLocalForward st.self st.o.f k
+      ({ st with m := m', o := { st.o with f := f' } }, s!"{ok} ; {fdump f'}")
+    | none => (st, "bad-op")
   | ["mdisc", peer] =>
     let m' := st.m.disconnect (natTok peer)
     ({ st with m := m' }, s!"{countRoutes st.m.st.tab - countRoutes m'.st.tab} ; {mdump m'}")
@@ -83,7 +123,10 @@ def step (st : St) (line : String) : St × String :=
     ({ st with m := m' }, s!"ok ; {mdump m'}")
   | ["mlook", ip] =>
     match parseIP ip with
-    | some a => (st, showOpt st.m.st.now (lookup st.m.st.tab a))
+    | some a =>
+      match lookup st.m.st.tab a with
+      | none => (st, "none")
+      | some r => (st, showHead (showEntry st.m.st.now) (get st.m.st.tab (eff r.pay)))
     | none => (st, "bad-op")
   | ["mdadv", fromP, orig, seq, path, pat, metric] =>
     let (o', out) := C09.step st.o s!"dadv {pat} {fromP} {orig} {advMetric (natTok metric)} {seq} {path}"
@@ -113,40 +156,56 @@ def canonOut (out : String) : String × List String :=
 
 structure SpecSt where
   self : Nat := 0
+  foldTab : List (Bytes × Bytes) := []
+  trimTab : List (Bytes × Bytes) := []
   c : List String := []   -- tokens of the last CIDR dump
   d : List String := []
   f : List String := []
   a : List String := []
   m : List String := []
-  mseq : Nat := 0
-  mlocals : List CKey := []
+  mgr : Mgr := {}         -- the manager's own bookkeeping (sequence counter, local key sets)
 
 def pathHasSelf (self : Nat) (path : String) : Bool := (parsePath path).contains self
+
+/-- which table an op works on: `c` stand-alone CIDR table, `m` the manager's CIDR table,
+    `d` / `f` / `a`, or `-` for lookups and other read-only ops -/
+def kindOf (op opline : String) : String :=
+  let readOnly := ["look", "get", "lookall", "has", "size", "routes", "dlook", "flook", "alook"]
+  if readOnly.contains (op.drop 1).toString || readOnly.contains op then "-"
+  else if op = "race" then C09.raceTable opline
+  else if op.startsWith "c" then "c"
+  else if op.startsWith "m" then
+    if ["mdadv", "mdlocal", "mdrmlocal"].contains op then "d"
+    else if ["mfadv", "mflocal", "mfrmlocal"].contains op then "f"
+    else if op = "maadv" then "a"
+    else "m"
+  else (op.take 1).toString
 
 /-- name of the rule an op exercises (the tag reported when the implementation breaks it) -/
 def ruleOf (self : Nat) (op : String) (toks : List String) : String :=
   let o := (op.drop 1).toString
-  if o = "add" || o = "adv" || o = "local" || o = "dadv" || o = "fadv" || o = "aadv" then
+  if ["add", "adv", "dadv", "fadv", "aadv"].contains o then
     -- the path is the last argument of the direct adds, the 4th argument of the manager advertises
     let path := if op.startsWith "m" then (toks.drop 3).head?.getD "-" else toks.getLast?.getD "-"
-    if pathHasSelf self path && o != "local" then "self-path-stored" else "update-rule"
-  else if o = "rm" || o = "wd" || o = "rmlocal" then "withdraw-inexact"
+    if pathHasSelf self path then "self-path-stored" else "update-rule"
+  else if ["local", "dyn", "dlocal", "flocal"].contains o then "local-route-rule"
+  else if ["rm", "wd", "rmlocal", "rmdyn", "drmlocal", "frmlocal"].contains o then "withdraw-inexact"
   else if o = "disc" then "disconnect-inexact"
   else if o = "clean" then "cleanup-inexact"
   else if o = "clear" then "clear-inexact"
   else "clock"
 
 /-- compare what the rule yields from the implementation's previous table with what the
-    implementation printed -/
+    implementation printed; `expected` may list several admissible results (`anyof`) -/
 def verdict (self : Nat) (op : String) (toks : List String) (expected impl : String)
     (prev : List String) : String :=
   let i := canonOut impl
+  let agrees := (alternatives expected).any (fun e => canonOut e == i)
   if (op.drop 1).toString = "race" || op = "race" then
     match wfTag (toks.any (fun t => t.startsWith "aadd" || t = "arm")) (dumpToks impl) with
     | some tag => "fail " ++ tag
-    | none => if (alternatives expected).any (fun e => canonOut e == i) then "ok"
-              else "fail race-not-serializable"
-  else if canonOut expected == i then "ok"
+    | none => if agrees then "ok" else "fail race-not-serializable"
+  else if agrees then "ok"
   else
     let rule := ruleOf self op toks
     if rule = "cleanup-inexact" then
@@ -159,43 +218,71 @@ def verdict (self : Nat) (op : String) (toks : List String) (expected impl : Str
       else "fail cleanup-inexact"
     else s!"fail {rule}"
 
+/-- `AgentTable.RemoveRoute(agent, origin)` removes the first entry of that origin, i.e. one of the
+    origin's entries with the least metric — which one, when several tie, depends on the order
+    `sort.Slice` left inside the run: every choice is admissible. -/
+def armAlternatives (tab : ATable) (now ag o : Nat) : String :=
+  let g := get tab ag
+  let cands := g.filter (·.origin == o)
+  match cands.map (·.metric) with
+  | [] => s!"false ; {adump ⟨now, tab⟩}"
+  | m :: ms =>
+    let least := ms.foldl min m
+    let alts := (cands.filter (·.metric == least)).map fun x =>
+      let g' := g.erase x
+      let t' := if g'.isEmpty then del tab ag else set tab ag g'
+      s!"true ; {adump ⟨now, t'⟩}"
+    match alts with
+    | [x] => x
+    | xs => "anyof " ++ " | ".intercalate xs
+
 def specStep (st : SpecSt) (l : String) : SpecSt × String :=
   match l.splitOn "\t" with
   | [opline, out] =>
     if out.startsWith "panic" || out.startsWith "crash" then (st, "fail crashed")
     else match tokens opline with
       | ["reset", self] => ({ self := natTok self }, "ok")
+      | ["oracle", kind, i, o] =>
+        match bytesOfHex i, bytesOfHex o with
+        | some a, some b =>
+          if out != "ok" then (st, "fail bad-oracle")
+          else if kind = "fold" then ({ st with foldTab := (a, b) :: st.foldTab }, "ok")
+          else ({ st with trimTab := (a, b) :: st.trimTab }, "ok")
+        | _, _ => (st, "bad-op")
       | op :: rest =>
-        let o := (op.drop 1).toString
-        if o = "look" || o = "get" || o = "lookall" || o = "has" || o = "size" || o = "routes" then (st, "ok")
-        else if op.startsWith "m" && !(op = "mdadv" || op = "mfadv" || op = "maadv") then
-          -- manager CIDR ops on the implementation's previous manager table
+        let kind := kindOf op opline
+        let S := strOf st.foldTab st.trimTab
+        -- the model started from the table the implementation printed last (only the table the
+        -- op works on is rebuilt) and from the manager's bookkeeping so far
+        let o0 : C09.St := { self := st.self, foldTab := st.foldTab, trimTab := st.trimTab }
+        let ms0 : St := { self := st.self, m := st.mgr, o := o0 }
+        if kind = "-" then (st, "ok")
+        else if kind = "m" then
           let tab : CTable := rebuild eff C08.parseEntry baseNow st.m
-          let ms : St := { self := st.self, m := { seq := st.mseq, locals := st.mlocals, st := ⟨baseNow, tab⟩ } }
-          let (ms', expected) := step ms opline
-          let v := verdict st.self op rest expected out st.m
-          ({ st with m := dumpToks out, mseq := ms'.m.seq, mlocals := ms'.m.locals }, v)
-        else if op.startsWith "c" then
+          let (ms', expected) := step { ms0 with m := { st.mgr with st := ⟨baseNow, tab⟩ } } opline
+          ({ st with m := dumpToks out, mgr := { ms'.m with st := ⟨0, []⟩ } },
+            verdict st.self op rest expected out st.m)
+        else if kind = "c" then
           let tab : CTable := rebuild eff C08.parseEntry baseNow st.c
           let (_, expected) := C08.stepR ⟨st.self, ⟨baseNow, tab⟩⟩ (stripOp opline)
           ({ st with c := dumpToks out }, verdict st.self op rest expected out st.c)
-        else
-          let tbl := if op.startsWith "m" then (op.drop 1).toString
-                     else if op = "race" then C09.raceTable opline else op
-          let ms : St := { self := st.self }
-          if tbl.startsWith "d" then
-            let tab : DTable := rebuild domKey (parseCommon parseDomPay) baseNow st.d
-            let (_, expected) := step { ms with o := { self := st.self, d := ⟨baseNow, tab⟩ } } opline
-            ({ st with d := dumpToks out }, verdict st.self op rest expected out st.d)
-          else if tbl.startsWith "f" then
-            let tab : FTable := rebuild (·.key) (parseCommon parseFwdPay) baseNow st.f
-            let (_, expected) := step { ms with o := { self := st.self, f := ⟨baseNow, tab⟩ } } opline
-            ({ st with f := dumpToks out }, verdict st.self op rest expected out st.f)
-          else if tbl.startsWith "a" then
-            let tab : ATable := rebuild id (parseCommon parseAgPay) baseNow st.a
-            let (_, expected) := step { ms with o := { self := st.self, a := ⟨baseNow, tab⟩ } } opline
-            ({ st with a := dumpToks out }, verdict st.self op rest expected out st.a)
-          else (st, "bad-op")
+        else if kind = "d" then
+          let tab : DTable := rebuild (domKey S) (parseCommon parseDomPay) baseNow st.d
+          let (ms', expected) := step { ms0 with o := { o0 with d := ⟨baseNow, tab⟩ } } opline
+          ({ st with d := dumpToks out, mgr := { ms'.m with st := ⟨0, []⟩ } },
+            verdict st.self op rest expected out st.d)
+        else if kind = "f" then
+          let tab : FTable := rebuild (·.key) (parseCommon parseFwdPay) baseNow st.f
+          let (ms', expected) := step { ms0 with o := { o0 with f := ⟨baseNow, tab⟩ } } opline
+          ({ st with f := dumpToks out, mgr := { ms'.m with st := ⟨0, []⟩ } },
+            verdict st.self op rest expected out st.f)
+        else if kind = "a" then
+          let tab : ATable := rebuild id (parseCommon parseAgPay) baseNow st.a
+          let expected := match op, rest with
+            | "arm", [ag, o] => armAlternatives tab baseNow (natTok ag) (natTok o)
+            | _, _ => (step { ms0 with o := { o0 with a := ⟨baseNow, tab⟩ } } opline).2
+          ({ st with a := dumpToks out }, verdict st.self op rest expected out st.a)
+        else (st, "bad-op")
       | [] => (st, "bad-op")
   | _ => (st, "bad-op")
 
